@@ -67,6 +67,10 @@ def splines(tier):
     for order in (0, 1):
         out.append(Spline(((0.0, 10.0), (2e9, 20.0), (4e9, 30.0)), order, order == 1))
         out.append(Spline(((-2147483648.0, -1.0), (2147483647.0, 1.0)), order, False))
+    # knots beyond 2**53 (64-bit counters): integer raws next to them are not floats
+    for order in (0, 1):
+        out.append(Spline(((0.0, 10.0), (2.0 ** 60, 20.0), (2.0 ** 62, 30.0)), order, False))
+        out.append(Spline(((-(2.0 ** 63), -1.0), (9007199254740996.0, 0.5), (2.0 ** 64, 1.0)), order, order == 1))
     # both zeros as calibrated values and as raws, in both orders
     out.append(Spline(((-4.0, -0.0), (0.0, 0.0), (8.0, -0.0), (31.0, 10.0)), 1, True))
     out.append(Spline(((-0.0, 0.0), (3.0, -0.0), (8.0, 0.5)), 0, False))
@@ -302,6 +306,8 @@ def _task_objects(task):
                         near += [math.nextafter(x0, -math.inf), math.nextafter(x0, math.inf), x0 - max(abs(x0), 1.0) * 1e-10, x0 + max(abs(x0), 1.0) * 1e-10]
                         if abs(x0) > 1e6:
                             near += [x0 - 1, x0 + 1]
+                        if abs(x0) >= 2.0 ** 53:
+                            near += [int(x0) - 1, int(x0) + 1]   # integers next to the knot that no float can hold
                     grid = sorted(set(grid + near))
             scr = [grid[(i * 7 + 3) % len(grid)] for i in range(len(grid))] if len(grid) % 7 else list(reversed(grid))
             for x in list(grid) + scr:   # ascending, then scrambled (the same calibrator object answers all queries)
